@@ -21,6 +21,8 @@ structure Obs where
   att : Attach
   /-- bytes written by the other end of the tunnel became readable on the requester -/
   data : Bool
+  /-- how many TunnelOpenAck packets were written to the requester (the first one is `ack`) -/
+  acks : Nat
 deriving DecidableEq, Repr
 
 /-- The mapping the addressed tunnel belongs to: the bridge's / the route's mapping; a tunnel that does not
@@ -56,15 +58,20 @@ def entitledB (w : World) (id : ConnIdent) (req : Req) (ts : TunnelState) : Bool
      (req.SecretKey != "" && req.SecretKey == m.SecretKey &&
        (provenClient id == m.ListenClientID || provenClient id == m.TargetClientID)))
 
+/-- One TunnelOpen, at most one acknowledgement: never a second TunnelOpenAck (after a success ack the client is
+in stream mode and would take it for tunnel payload), and a connection is attached only after it was told so. -/
+def ackDiscipline (o : Obs) : Bool :=
+  decide (o.acks ≤ 1) && ((o.ack == .none) == (o.acks == 0)) && (o.att == .none || o.ack == .ok)
+
 /-- The property on one observation: a request that is not entitled is refused — failure acknowledgement,
 nothing attached anywhere, no tunnel traffic.  (An entitled request may be served or not.) -/
 def holds (w : World) (id : ConnIdent) (req : Req) (ts : TunnelState) (o : Obs) : Bool :=
-  entitledB w id req ts || (o.ack == .fail && o.att == .none && !o.data)
+  (entitledB w id req ts || (o.ack == .fail && o.att == .none && !o.data)) && ackDiscipline o
 
 /-- What the model predicts the observer sees: traffic from the other end reaches the requester exactly when
 it became the target of a bridge that was still waiting, or was piped to the node holding the bridge. -/
 def Outcome.obs (o : Outcome) (ts : TunnelState) : Obs :=
-  { ack := o.ack, att := o.attach,
+  { ack := o.ack, att := o.attach, acks := if o.ack == .none then 0 else 1,
     data := match o.attach, ts with
       | .target, .bridge _ served => !served
       | .forward _, _ => true
@@ -76,6 +83,7 @@ def attachedTs (ts : TunnelState) (late : Late) (att : Attach) : TunnelState :=
   match ts, late with
   | .none, .route m n _ => if att == .source then ts else .remote m n
   | .none, .window m => if att == .source then ts else .bridge m false
+  | .none, .early m => if att == .source then ts else .bridge m false
   | _, _ => ts
 
 /-- The property when the tunnel state changes during the request: the acknowledgement is judged against the
@@ -89,11 +97,12 @@ def holdsDyn (w : World) (id : ConnIdent) (req : Req) (ts : TunnelState) (late :
 /-- Observation predicted for a request with a late-appearing tunnel: bytes of the late bridge's source reach a
 connection attached to it as target. -/
 def Outcome.obsDyn (o : Outcome) (ts : TunnelState) (late : Late) : Obs :=
-  { ack := o.ack, att := o.attach,
+  { ack := o.ack, att := o.attach, acks := if o.ack == .none then 0 else 1,
     data := match o.attach, ts, late with
       | .target, .bridge _ served, _ => !served
       | .target, .none, .route _ _ _ => true
       | .target, .none, .window _ => true
+      | .target, .none, .early _ => true
       | .forward _, _, _ => true
       | _, _, _ => false }
 
@@ -101,7 +110,7 @@ def Outcome.obsDyn (o : Outcome) (ts : TunnelState) (late : Late) : Obs :=
 updates of the record were in flight; afterwards somebody presents credentials for a tunnel of that mapping":
 the record still says revoked and the request is refused. -/
 def holdsRevoked (recordRevoked : Bool) (o : Obs) : Bool :=
-  recordRevoked && o.ack == .fail && o.att == .none && !o.data
+  recordRevoked && o.ack == .fail && o.att == .none && !o.data && ackDiscipline o
 
 /-- What the session manager's bookkeeping guarantees about a connection (established by the auth handlers,
 property C03): a client id is set only together with the authenticated flag. -/
